@@ -427,6 +427,76 @@ func c10Scenario(w *vfWorld, r *vfkit.R, idx int) {
 	sc.checkSettled()
 	sc.fold(sc.rowsP())
 
+	step := func(fn func()) {
+		before := sc.rowsP()
+		fn()
+		e.vfQuiesce()
+		sc.fold(before)
+	}
+	settled := func(what string) bool {
+		before := sc.rowsP()
+		if !sc.settle() {
+			r.Inconclusive("c10: did not settle " + what)
+			return false
+		}
+		sc.fold(before)
+		sc.logf("-- settled")
+		sc.checkSettled()
+		sc.fold(sc.rowsP())
+		r.Hit("settled_points")
+		return true
+	}
+	if idx%2 == 0 {
+		// directed: a contact (re)connects while it is muted, then is un-muted: the user must be told 'online'
+		u, v := sc.users[1], sc.users[2]
+		vn := v.u.uid.UserId()
+		step(func() {
+			f := u.ss[0].c.set(vn, map[string]any{"sub": map[string]any{"mode": "JRWA"}})
+			sc.logf("user %d (%s) sets own mode on user %d to JRWA -> %s", u.i, u.ss[0].c.name, v.i, codeStr(f))
+		})
+		step(func() {
+			v.ss[0].closed = true
+			v.ss[0].c.close()
+			sc.logf("%s disconnects", v.ss[0].c.name)
+		})
+		if !settled("after the muted contact went away") {
+			return
+		}
+		step(func() {
+			s := sc.newSess(v, false)
+			s.c.sub("me", nil)
+			sc.logf("user %d opens session %s and attaches me (while muted by user %d)", v.i, s.c.name, u.i)
+		})
+		step(func() {
+			f := u.ss[0].c.set(vn, map[string]any{"sub": map[string]any{"mode": "JRWPA"}})
+			sc.logf("user %d (%s) sets own mode on user %d to JRWPA -> %s", u.i, u.ss[0].c.name, v.i, codeStr(f))
+		})
+		r.Hit("contact_connected_while_muted")
+		if !settled("after un-muting") {
+			return
+		}
+	} else {
+		// directed: the last session leaves the group and, before the idle group is unloaded, a subscription
+		// attempt is refused: the group must still be unloaded and reported offline
+		step(func() {
+			for _, u := range sc.users {
+				for _, s := range u.ss {
+					if s.attachedTo(sc.grp) {
+						s.c.leave(sc.grp, false)
+					}
+				}
+			}
+			f := sc.users[1].ss[0].c.sub(types.GrpToChn(sc.grp), nil)
+			sc.logf("everybody leaves the group; %s attaches the group by its channel name -> %s", sc.users[1].ss[0].c.name, codeStr(f))
+			if f != nil && f.code() >= 400 {
+				r.Hit("refused_sub_in_idle_window")
+			}
+		})
+		if !settled("after a refused subscription to the idle group") {
+			return
+		}
+	}
+
 	steps := 10 + rng.Intn(10)
 	for i := 0; i < steps; i++ {
 		u := sc.users[rng.Intn(len(sc.users))]
